@@ -28,6 +28,7 @@ type callTarget struct {
 	recvType types.Type  // declared receiver type
 	fn       *types.Func // static callee, if any
 	recvPath []int       // promoted method: field path from recv to the embedded receiver
+	holder   ast.Expr    // func-typed field call x.f(...): x (bound to `recv` in the role contract)
 	lit      *ast.FuncLit
 }
 
@@ -65,7 +66,7 @@ func (t *tr) resolveCall(c *ast.CallExpr) *callTarget {
 				if p, ok := owner.Underlying().(*types.Pointer); ok {
 					owner = p.Elem()
 				}
-				return &callTarget{key: "field:" + typeKey(owner) + "." + fld.Name(), sig: sig}
+				return &callTarget{key: "field:" + typeKey(owner) + "." + fld.Name(), sig: sig, holder: f.X}
 			}
 		}
 		if o, ok := t.info.ObjectOf(f.Sel).(*types.Func); ok {
@@ -175,6 +176,10 @@ func (t *tr) evCall(c *ast.CallExpr) []Term {
 		if ct.recvType != nil {
 			recvTerm.T = ct.recvType
 		}
+	} else if ct.holder != nil {
+		haveRecv = true
+		recvTerm = t.ev(ct.holder)
+		recvTerm.T = t.typeOf(ct.holder)
 	} else if ct.recv != nil {
 		haveRecv = true
 		rt := t.typeOf(ct.recv)
@@ -332,7 +337,14 @@ func (t *tr) addrOfExpr(e ast.Expr, needWriteback bool) (Term, func()) {
 	}
 	v := t.ev(e)
 	v.T = T
-	p := t.alloc()
+	var p Term
+	if fa, ok := t.fieldAddr(e); ok {
+		// &q.f with q a pointer: a stable interior address (negative, never allocated), so that ghost state
+		// attached to the embedded object persists between calls
+		p = fa
+	} else {
+		p = t.alloc()
+	}
 	p.T = types.NewPointer(T)
 	t.storePtr(p, v, e.Pos())
 	t.V.note("address-of as copy-in/copy-out: callee assumed not to retain the pointer")
@@ -691,8 +703,13 @@ func (t *tr) modObject(v Term, sc *specCtx) []frameLoc {
 func (t *tr) havocModifies(con *Contract, sc *specCtx, pre Env, pos token.Pos) {
 	if con.NoFrame {
 		// everything may change: havoc all heap variables known so far
+		// `preserves` lists heaps that even an unknown-frame callee cannot touch (e.g. unexported executor state)
+		keep := map[*Var]bool{}
+		for _, l := range t.modLocs(con.clauses("preserves"), sc) {
+			keep[l.heap] = true
+		}
 		for _, v := range t.allVars {
-			if v.Heap {
+			if v.Heap && !keep[v] {
 				t.fresh(v)
 			}
 		}
@@ -753,7 +770,9 @@ func (t *tr) frameFormula(h *Var, a, b Env, locs []frameLoc, qn *int) Term {
 	r := Term{S: fmt.Sprintf("r$f%d", *qn), Sort: arrayIdxSort(h.Sort)}
 	var allowed []Term
 	if r.Sort == SInt {
-		allowed = append(allowed, gt(r, t.readIn(a, t.allocTop)))
+		// fresh objects may change freely; negative references are interior field addresses, i.e. mirrors of a
+		// struct-typed field whose own heap is frame-checked on write-back
+		allowed = append(allowed, gt(r, t.readIn(a, t.allocTop)), lt(r, intLit(0)))
 	}
 	isElem := strings.HasPrefix(h.Name, "E$")
 	if !isElem {
@@ -1029,6 +1048,22 @@ func (t *tr) deferStmt(x *ast.DeferStmt) {
 	}
 	d.flag = t.newVar(fmt.Sprintf("deferred$%d", len(t.defers)+1), SBool, types.Typ[types.Bool], false)
 	d.env = t.cur.Env.clone()
+	// receiver and arguments of a deferred (non-literal) call are evaluated now: snapshot the locals they mention
+	if _, isLit := ast.Unparen(x.Call.Fun).(*ast.FuncLit); !isLit {
+		d.snap = map[types.Object]*Var{}
+		ast.Inspect(x.Call, func(n ast.Node) bool {
+			if id, ok := n.(*ast.Ident); ok {
+				if o, ok := t.info.Uses[id].(*types.Var); ok && !o.IsField() {
+					if lv, ok := t.vars[o]; ok && !lv.Heap && d.snap[o] == nil {
+						sv := t.tmpVar("defersnap$"+o.Name(), lv.Sort, lv.T)
+						t.assign(sv, t.read(lv))
+						d.snap[o] = sv
+					}
+				}
+			}
+			return true
+		})
+	}
 	t.assign(d.flag, tTrue)
 	t.defers = append(t.defers, d)
 }
@@ -1146,4 +1181,33 @@ func (t *tr) applyCallsFlag(con *Contract, ct *callTarget, c *ast.CallExpr, spec
 	}
 	t.V.note("higher-order callee " + con.Key + ": assumed to call its function argument exactly once (flag calls)")
 	return t.evCall(synth)
+}
+
+// fieldAddr returns the interior address of expression e when e is q.f with q a pointer to a struct.
+func (t *tr) fieldAddr(e ast.Expr) (Term, bool) {
+	se, ok := ast.Unparen(e).(*ast.SelectorExpr)
+	if !ok {
+		return Term{}, false
+	}
+	sl, ok := t.info.Selections[se]
+	if !ok || sl.Kind() != types.FieldVal || len(sl.Index()) != 1 {
+		return Term{}, false
+	}
+	bt := t.typeOf(se.X)
+	if bt == nil {
+		return Term{}, false
+	}
+	pt, ok := bt.Underlying().(*types.Pointer)
+	if !ok {
+		return Term{}, false
+	}
+	if _, ok := pt.Elem().Underlying().(*types.Struct); !ok {
+		return Term{}, false
+	}
+	base := t.ev(se.X)
+	name := "faddr$" + typeKey(pt.Elem()) + "." + se.Sel.Name
+	t.V.W.declFun(name, []string{SInt}, SInt)
+	t.V.W.declFun(name+"~inv", []string{SInt}, SInt)
+	t.V.W.addAxiom(name, fmt.Sprintf("(forall ((p Int)) (! (and (< (%s p) 0) (= (%s (%s p)) p)) :pattern ((%s p))))", sym(name), sym(name+"~inv"), sym(name), sym(name)))
+	return app(sym(name), SInt, base), true
 }
